@@ -64,7 +64,7 @@ DESTRUCTION = {
     ('utils:ObjectWriter.__exit__', 'UNLINK', 'sandbox'): 'removes the temporary file',
     ('utils:ObjectWriter.__exit__', 'RENAME', 'sandbox->loose'): 'publish',
     ('utils:ObjectWriter.__exit__', 'REPLACE', 'sandbox->loose'): 'publish over a corrupt copy (checksum mismatch verified, C09.R1)',
-    ('utils:ObjectWriter._store_duplicate_copy', 'RENAME', 'param->duplicates'): 'Windows: keep a duplicate instead of overwriting an open file',
+    ('utils:ObjectWriter.__exit__', 'RENAME', 'sandbox->duplicates'): 'Windows: keep a duplicate instead of overwriting an open file (through _store_duplicate_copy)',
 }
 DESTRUCTIVE = ('UNLINK', 'RENAME', 'REPLACE', 'LINK', 'RMTREE', 'RMDIR', 'DB_DELETE', 'DB_UPDATE', 'H_TRUNCATE', 'TRUNCATE_PATH', 'MOVE', 'COPY',
                'WRITE_PATH', 'TOUCH', 'FS_OTHER', 'DB_OTHER')
@@ -709,11 +709,12 @@ def run(ctx):
     # ================================================================ R4 (destruction table)
     nsites = 0
     seen_keys = set()
-    for f in prog.all_functions():
-        for n, cal, effs in S.calls(f):
-            for e in effs:
-                if e[0] not in DESTRUCTIVE:
-                    continue
+    from .common import CallGraph
+    cgraph = CallGraph(ctx, S)
+    from .common import resolved_effect_sites
+    for f, n, e in resolved_effect_sites(ctx, S, cgraph, set(DESTRUCTIVE)):
+        if True:
+            if True:
                 if e[0] == 'DB_OTHER':
                     txt = str(e[2]).upper()
                     if not any(w in txt for w in ('DELETE', 'DROP', 'UPDATE', 'REPLACE', 'INSERT', 'ALTER', 'TRUNCATE')):
@@ -726,6 +727,14 @@ def run(ctx):
                     continue
                 nsites += 1
                 key = (f.qualname, e[0], lab)
+                if key not in DESTRUCTION:
+                    # a private helper: the effect belongs to the tabled functions that (transitively) call it -- if all its roots are tabled owners
+                    roots = cgraph.owners(f.qualname, lambda q, _e=e[0], _l=lab: (q, _e, _l) in DESTRUCTION)
+                    if roots and all((q, e[0], lab) in DESTRUCTION for q in roots):
+                        for q in roots:
+                            seen_keys.add((q, e[0], lab))
+                        chk.ok(R4, f.qualname, f'{e[0]} {lab} (helper of {sorted(roots)})', detail='; '.join(DESTRUCTION[(q, e[0], lab)] for q in sorted(roots)), nontrivial=True)
+                        continue
                 if key in DESTRUCTION:
                     seen_keys.add(key)
                     chk.ok(R4, f.qualname, f'{e[0]} {lab}', detail=DESTRUCTION[key], nontrivial=True)
